@@ -1,6 +1,6 @@
 (* C16 - prelude functions and macros compute what their documentation says.
    Only statements; proofs in Eval/PreludeProofs.v. *)
-From PL Require Import Eval.EvalRules Eval.PreludeState Eval.PreludeProofs Eval.CatchProofs Eval.MacroProofs2 Eval.LengthProofs Eval.RangeProofs Eval.FoldProofs Eval.MapProofs Eval.ZipProofs Eval.LastProofs Eval.InitProofs Eval.FoldrProofs Eval.EnumerateProofs Eval.SumProofs.
+From PL Require Import Eval.EvalRules Eval.PreludeState Eval.PreludeProofs Eval.CatchProofs Eval.MacroProofs2 Eval.LengthProofs Eval.RangeProofs Eval.FoldProofs Eval.MapProofs Eval.ZipProofs Eval.LastProofs Eval.InitProofs Eval.FoldrProofs Eval.EnumerateProofs Eval.SumProofs Eval.CompareProofs Eval.MinusProofs Eval.DivideProofs.
 From Coq Require Import ZArith.
 From Coq Require Import String.
 Local Open Scope string_scope.
@@ -170,3 +170,48 @@ Theorem C16_plus_call_env : forall src vals i n,
   (let '(ps, _, e, _) := plus_parts in pair_params src ps true vals e i n) = inl (pl_env (vec_to_list vals)).
 Proof. exact plus_call_env. Qed.
 Print Assumptions C16_plus_call_env.
+
+(* <=, >= and /= for EVERY pair of numbers (whatever metadata the operands carry): true exactly when the documented
+   relation holds; the first test of the expanded or is evaluated once *)
+Theorem C16_less_or_equal : forall x y a b st d, getv x = VNum a -> getv y = VNum b -> has_prelude st -> (d + 3 <= MAXD)%N ->
+  exists fuel st' r, eval_loop fuel st (c_body "<=") (c_env "<=" x y) pm d = (st', ROk r) /\ has_prelude st' /\
+                     r = bool_val (a <=? b)%Z.
+Proof. exact le_spec. Qed.
+Print Assumptions C16_less_or_equal.
+
+Theorem C16_greater_or_equal : forall x y a b st d, getv x = VNum a -> getv y = VNum b -> has_prelude st -> (d + 3 <= MAXD)%N ->
+  exists fuel st' r, eval_loop fuel st (c_body ">=") (c_env ">=" x y) pm d = (st', ROk r) /\ has_prelude st' /\
+                     r = bool_val (a >=? b)%Z.
+Proof. exact ge_spec. Qed.
+Print Assumptions C16_greater_or_equal.
+
+Theorem C16_not_equal : forall x y a b st d, getv x = VNum a -> getv y = VNum b -> has_prelude st -> (d + 3 <= MAXD)%N ->
+  exists fuel st' r, eval_loop fuel st ne_body (ne_env x y) pm d = (st', ROk r) /\ has_prelude st' /\ is_nil r = (a =? b)%Z.
+Proof. exact ne_runs. Qed.
+Print Assumptions C16_not_equal.
+
+(* - and / for EVERY list of numbers: no argument 0 / 1, one argument the negation / 1 divided by it, otherwise the first
+   minus the sum / divided by the product of the others (truncating division) - under the guards [minus_ok] / [divide_ok]:
+   the intermediate results the functions really compute stay in range and no divisor is zero *)
+Theorem C16_minus : forall vals zs st d, Forall2 (fun v z => getv v = VNum z) vals zs -> minus_ok zs = true ->
+  has_prelude st -> (d + 5 <= MAXD)%N ->
+  exists fuel st' r, eval_loop fuel st mi_body (mi_env (vec_to_list vals)) pm d = (st', ROk r) /\ has_prelude st' /\
+                     getv r = VNum (minus_spec zs).
+Proof. exact minus_runs. Qed.
+Print Assumptions C16_minus.
+
+Theorem C16_divide : forall vals zs st d, Forall2 (fun v z => getv v = VNum z) vals zs -> divide_ok zs = true ->
+  has_prelude st -> (d + 5 <= MAXD)%N ->
+  exists fuel st' r, eval_loop fuel st dv_body (dv_env (vec_to_list vals)) pm d = (st', ROk r) /\ has_prelude st' /\
+                     getv r = VNum (divide_spec zs).
+Proof. exact divide_runs. Qed.
+Print Assumptions C16_divide.
+
+(* what the guards and results are, spelled out *)
+Theorem C16_minus_divide_spec :
+  (forall z, minus_spec [z] = (- z)%Z) /\ minus_spec [] = 0%Z /\ divide_spec [] = 1%Z /\
+  (forall z r rs, minus_spec (z :: r :: rs) = (z - fold_left Z.add (r :: rs) 0)%Z) /\
+  (forall z r rs, divide_spec (z :: r :: rs) = Z.quot z (fold_left Z.mul (r :: rs) 1%Z)) /\
+  (forall z, divide_spec [z] = Z.quot 1 z) /\
+  minus_ok [0; 9223372036854775807; 1]%Z = false /\ divide_ok [1; 0]%Z = false /\ divide_ok [100; 5; 2]%Z = true.
+Proof. repeat split. Qed.
